@@ -45,6 +45,68 @@ func staticStorePrefix(addr ssa.Value) (string, bool) {
 			return "", false
 		}
 		return elemPrefix(et), true
+	case *ssa.FreeVar, *ssa.Alloc, *ssa.Parameter:
+		// a variable cell (captured variable of a closure, escaping local, pointer parameter)
+		// holding a scalar: only the cell map of that type can change
+		if pt, ok := x.Type().Underlying().(*types.Pointer); ok {
+			et := pt.Elem()
+			if isStruct(et) {
+				return "", false
+			}
+			switch et.Underlying().(type) {
+			case *types.Array, *types.Slice, *types.Map, *types.Interface, *types.Signature:
+				return "", false
+			}
+			return cellPrefix(et), true
+		}
 	}
 	return "", false
+}
+
+// staticStorePrefixes: like staticStorePrefix, and also for stores of whole struct values
+// (struct-typed slice elements, struct fields, struct cells): every field map of the struct,
+// recursively. ok=false when the set of changed maps cannot be named statically.
+func staticStorePrefixes(addr ssa.Value) ([]string, bool) {
+	if p, ok := staticStorePrefix(addr); ok {
+		return []string{p}, true
+	}
+	pt, ok := addr.Type().Underlying().(*types.Pointer)
+	if !ok || !isStruct(pt.Elem()) {
+		return nil, false
+	}
+	switch addr.(type) {
+	case *ssa.FieldAddr, *ssa.IndexAddr, *ssa.Alloc, *ssa.FreeVar, *ssa.Parameter:
+	default:
+		return nil, false
+	}
+	var out []string
+	if !structStorePrefixes(pt.Elem(), &out, 0) {
+		return nil, false
+	}
+	return out, true
+}
+
+func structStorePrefixes(t types.Type, out *[]string, depth int) bool {
+	st, ok := t.Underlying().(*types.Struct)
+	if !ok || depth > 4 {
+		return false
+	}
+	for i := 0; i < st.NumFields(); i++ {
+		ft := st.Field(i).Type()
+		if isStruct(ft) {
+			if !structStorePrefixes(ft, out, depth+1) {
+				return false
+			}
+			continue
+		}
+		if at, isArr := ft.Underlying().(*types.Array); isArr {
+			if isStruct(at.Elem()) {
+				return false
+			}
+			*out = append(*out, elemPrefix(at.Elem()))
+			continue
+		}
+		*out = append(*out, fieldPrefix(t, i))
+	}
+	return true
 }
